@@ -87,10 +87,16 @@ func (c *Ctx) partialSites(scope map[*ssa.Function]bool, tb *ir.TB) (sites []par
 		Instrs(fn, func(ins ssa.Instruction) {
 			facts := ir.BlockFacts(ins.Block())
 			switch x := ins.(type) {
-			case *ssa.IndexAddr, *ssa.Index:
+			case *ssa.IndexAddr, *ssa.Index, *ssa.Lookup:
 				var coll, idx ssa.Value
 				if ia, ok := x.(*ssa.IndexAddr); ok {
 					coll, idx = ia.X, ia.Index
+				} else if lk, ok := x.(*ssa.Lookup); ok {
+					// s[i] on a string is a Lookup in go/ssa; map lookups are total
+					if b, isStr := lk.X.Type().Underlying().(*types.Basic); !isStr || b.Info()&types.IsString == 0 {
+						return
+					}
+					coll, idx = lk.X, lk.Index
 				} else {
 					coll, idx = x.(*ssa.Index).X, x.(*ssa.Index).Index
 				}
